@@ -325,8 +325,19 @@ func verifParse(text string, s int, keep bool) (o vOut) {
 		o.atCancel = 0
 		cancel()
 	}
+	// error-handler calls are part of the observable outcome: they go into the event stream as
+	// pseudo events "!error" (recovering parsers only)
+	eh := func(se SyntaxError) bool {
+		o.evN++
+		o.evH = evHash(o.evH, "!error", se.Offset, se.Endoffset)
+		if keep {
+			o.events = append(o.events, rt.Event{Type: "!error", Off: se.Offset, End: se.Endoffset})
+		}
+		return true
+	}
+	_ = eh
 	var p Parser
-	p.Init(listener)
+	PARSERINIT
 	var err error
 	PARSECALL
 	o.delivered = clock
@@ -392,13 +403,28 @@ func VerifRun(entry, mode, text string) (res rt.Result) {
 		res.Extra = map[string]any{"record": o.record(s), "pollClock": o.pollClock}
 		return res
 	}
+	extra := map[string]any{}
+	if mode == "refsweep" {
+		// the uncancelled reference run and the sweep in one case; "all" in the moment list
+		// stands for every moment 0..final clock+3
+		o := verifParse(input, -1, true)
+		res.Events = o.events
+		extra["record"] = o.record(-1)
+		extra["pollClock"] = o.pollClock
+		if strings.Contains(text[:i], "all") {
+			for s := 0; s <= o.delivered+3; s++ {
+				moments = append(moments, s)
+			}
+		}
+	}
 	recs := make([]string, 0, len(moments))
 	for _, s := range moments {
 		o := verifParse(input, s, false)
 		recs = append(recs, o.record(s))
 	}
 	res.Accept = true
-	res.Extra = map[string]any{"records": recs}
+	extra["records"] = recs
+	res.Extra = extra
 	return res
 }
 `
@@ -420,6 +446,11 @@ func driver(g *grammar.Grammar, name string) string {
 		call = "var st TokenStream\n\tst.Init(text, listener)\n\t" + lhs + " p.Parse(ctx, &st)"
 	} else {
 		call = "var l Lexer\n\tl.Init(text)\n\t" + lhs + " p.Parse(ctx, &l)"
+	}
+	if g.Parser.IsRecovering {
+		src = strings.ReplaceAll(src, "PARSERINIT", "p.Init(eh, listener)")
+	} else {
+		src = strings.ReplaceAll(src, "PARSERINIT", "p.Init(listener)")
 	}
 	return strings.ReplaceAll(src, "PARSECALL", call)
 }
@@ -467,7 +498,7 @@ type finding struct{ key, what string }
 // cancellation; progress(r) converts the two clock values into the quantity that is bounded.
 func judge(ref *reference, r record, bound int, after func(r record) int) (fs []finding, class string) {
 	add := func(k, w string) { fs = append(fs, finding{k, w}) }
-	identical := r.ErrKind == "nil" && r.EvN == ref.rec.EvN && r.EvH == ref.rec.EvH && r.Value == ref.rec.Value
+	identical := r.ErrKind == ref.rec.ErrKind && r.EvN == ref.rec.EvN && r.EvH == ref.rec.EvH && r.Value == ref.rec.Value
 	switch {
 	case r.ErrKind == "ctx":
 		class = "ctx error"
@@ -621,31 +652,203 @@ func layerB(c *core.Ctx, st *stats) {
 				continue
 			}
 			ref := refs[sr.p.Name+"/"+sr.in.Name]
-			bound := pollEvery + 1 + sr.p.Lookaheads
-			maxAfter := 0
-			for _, rs := range res.Extra["records"].([]any) {
-				r, err := parseRecord(rs.(string))
-				if err != nil {
-					c.Violate("layerB:harness", err.Error(), gc)
-					continue
-				}
-				fs, class := judge(ref, r, bound, func(r record) int { return r.Delivered - r.AtCancel })
-				if r.AtCancel >= 0 && r.Delivered-r.AtCancel > maxAfter {
-					maxAfter = r.Delivered - r.AtCancel
-				}
-				st.note(c, sr.p.Name, sr.in.Name, r, class)
-				g := gc
-				g.S = r.S
-				for _, f := range fs {
-					c.Violate("generated:"+sr.p.Name+":"+f.key, fmt.Sprintf("%s; parser %s, input %s (%d tokens), cancelled at moment s=%d (clock at cancel %d, at return %d, %d polls)", f.what, sr.p.Name, sr.in.Name, ref.rec.Delivered, r.S, r.AtCancel, r.Delivered, r.Polls), g)
-				}
-			}
+			maxAfter := judgeGenRecords(c, st, sr.p, sr.in, ref, res.Extra["records"].([]any))
 			c.Set("gen_"+sr.p.Name+"_"+sr.in.Name+"_max_tokens_after_cancel", maxAfter)
 			// sensitivity of the bound: the stop distance must actually reach (almost) the bound,
 			// otherwise the inputs are too short to see a late stop
 			if maxAfter < pollEvery-2 {
 				c.Capped(fmt.Sprintf("%s/%s: the largest observed stop distance is only %d tokens", sr.p.Name, sr.in.Name, maxAfter))
 			}
+		}
+	}
+}
+
+// judgeGenRecords judges the records of one sweep of a generated parser; returns the largest
+// number of tokens delivered after a cancellation.
+func judgeGenRecords(c *core.Ctx, st *stats, p genParser, in genInput, ref *reference, recs []any) (maxAfter int) {
+	gc := genCase{Parser: p.Name, TM: p.TM, Input: in.Name, Text: in.Text, LA: p.Lookaheads}
+	bound := pollEvery + 1 + p.Lookaheads
+	for _, rs := range recs {
+		r, err := parseRecord(rs.(string))
+		if err != nil {
+			c.Violate("layerB:harness", err.Error(), gc)
+			continue
+		}
+		fs, class := judge(ref, r, bound, func(r record) int { return r.Delivered - r.AtCancel })
+		if r.AtCancel >= 0 && r.Delivered-r.AtCancel > maxAfter {
+			maxAfter = r.Delivered - r.AtCancel
+		}
+		st.note(c, p.Name, in.Name, r, class)
+		g := gc
+		g.S = r.S
+		for _, f := range fs {
+			c.Violate("generated:"+p.Name+":"+f.key, fmt.Sprintf("%s; parser %s, input %s (%d tokens, uncancelled outcome %s), cancelled at moment s=%d (clock at cancel %d, at return %d, %d polls)", f.what, p.Name, in.Name, ref.rec.Delivered, ref.rec.ErrKind, r.S, r.AtCancel, r.Delivered, r.Polls), g)
+		}
+	}
+	return maxAfter
+}
+
+// --- malformed inputs and the phase between main-loop shifts and lookahead shifts -------------
+
+// A recovering cancellable parser. afterErr = {tb, td}: at the top level a 'd' is a recovery
+// candidate that cannot be used (no open block), so "a d b" goes through the retry path of
+// recoverFromError (candidate rejected, removed from the set, skipped); "a a b" recovers at the
+// first candidate; "c a d" recovers inside a block.
+const recLexer = `
+:: lexer
+
+WhiteSpace: /[ \n]+/ (space)
+ta: /a/  { verifTick() }
+tb: /b/  { verifTick() }
+tc: /c/  { verifTick() }
+td: /d/  { verifTick() }
+error:
+`
+
+const recParser = `
+:: parser
+
+%input S;
+
+S -> Root: Stmt+ ;
+Stmt:
+    ta tb -> AB
+  | tc S td -> Block
+  | tc error td -> BadBlock
+  | error tb -> Bad
+;
+`
+
+func recInput(n int, unrecoverable bool) string {
+	var sb strings.Builder
+	for i := 0; i < n; i++ {
+		switch {
+		case i%13 == 7:
+			sb.WriteString("aab ") // recovered at the first candidate
+		case i%17 == 11:
+			sb.WriteString("adb ") // first candidate ('d') is rejected, retry
+		case i%29 == 20:
+			sb.WriteString("cabadd ") // error inside a block, recovered by BadBlock
+		case i%7 == 3:
+			sb.WriteString("cababd ")
+		default:
+			sb.WriteString("ab")
+		}
+	}
+	if unrecoverable {
+		sb.WriteString("a") // error at the end of input: nothing to recover with, SyntaxError returned
+	}
+	return sb.String()
+}
+
+// The phase family: k one-token statements, then one statement with a runtime lookahead (the
+// predicate shifts 3 tokens), then a long tail. The main loop and lookahead() share the shift
+// counter; k decides on which side of a 0x200 boundary the lookahead's shifts fall.
+const phaseParser = `
+:: parser
+
+%input S;
+
+S -> Root: Stmt+ ;
+Stmt:
+    ta -> Pad
+  | tb (?= P) tc tc td -> ViaA
+  | tb (?= !P) tc tc ta -> ViaB
+;
+P: tc tc td ;
+`
+
+func phaseKs(quick bool) []int {
+	var ks []int
+	for k := 0; k <= 600; k++ {
+		if !quick || k%8 == 0 || k < 6 || (k%512 >= 500 && k%512 <= 520) {
+			ks = append(ks, k)
+		}
+	}
+	return ks
+}
+
+// phaseMoments: the first callbacks / tokens and both sides of every 0x200 boundary.
+const phaseMoments = "m=0:10:1;m=500:526:1;m=1012:1038:1;x=-1,-3"
+
+func layerB2(c *core.Ctx, st *stats) {
+	rec := genParser{Name: "glrc", TM: header("glrc") + recLexer + recParser, Inputs: []genInput{
+		{"rec420", recInput(420, false)},
+		{"rec333fail", recInput(333, true)},
+	}}
+	recO := genParser{Name: "glro", TM: header("glro", "optimizeTables = true", "tokenStream = true") + recLexer + recParser, Inputs: []genInput{
+		{"rec400", recInput(400, false)},
+	}}
+	phase := genParser{Name: "glph", TM: header("glph") + listLexer + phaseParser, Lookaheads: 1}
+	phaseO := genParser{Name: "glpo", TM: header("glpo", "optimizeTables = true", "tokenStream = true") + listLexer + phaseParser, Lookaheads: 1}
+	for _, k := range phaseKs(c.Quick()) {
+		phase.Inputs = append(phase.Inputs, genInput{fmt.Sprintf("pad%d+A", k), strings.Repeat("a", k) + "bccd" + strings.Repeat("a", 700)})
+		if k%2 == 1 || !c.Quick() {
+			phase.Inputs = append(phase.Inputs, genInput{fmt.Sprintf("pad%d+B", k), strings.Repeat("a", k) + "bcca" + strings.Repeat("a", 700)})
+		}
+		if k%512 >= 500 && k%512 <= 520 {
+			phaseO.Inputs = append(phaseO.Inputs, genInput{fmt.Sprintf("pad%d+A", k), strings.Repeat("a", k) + "bccd" + strings.Repeat("a", 700)})
+		}
+	}
+	ps := []genParser{rec, recO, phase, phaseO}
+	var specs []genharness.Spec
+	for i, p := range ps {
+		var cases []genharness.Case
+		for _, in := range p.Inputs {
+			m := "all;x=-3"
+			if i >= 2 {
+				m = phaseMoments
+			}
+			cases = append(cases, genharness.Case{Mode: "refsweep", Text: m + ";in=" + in.Text})
+		}
+		specs = append(specs, genharness.Spec{Name: p.Name, TM: p.TM, Driver: driver, Cases: cases})
+	}
+	t0 := time.Now()
+	outs, err := genharness.RunBatch(specs, genharness.BatchOpts{CaseTimeout: 300 * time.Second})
+	debugf("malformed + phase batch %.1fs", time.Since(t0).Seconds())
+	if err != nil {
+		c.Violate("layerB:harness", err.Error(), nil)
+		return
+	}
+	for i, p := range ps {
+		out := outs[i]
+		if out.GenErr != "" || out.GenPanic != "" || out.BuildErr != "" || len(out.Results) != len(p.Inputs) {
+			c.Violate("layerB:parser-not-built:"+p.Name, fmt.Sprintf("generate/build failed: %s %s %s", out.GenErr, out.GenPanic, out.BuildErr), genCase{Parser: p.Name, TM: p.TM})
+			continue
+		}
+		if i < 2 && !out.Grammar.Parser.IsRecovering {
+			c.Violate("layerB:not-recovering:"+p.Name, "the error rules did not turn recovery on", genCase{Parser: p.Name, TM: p.TM})
+			continue
+		}
+		maxAll, handlerCalls := 0, 0
+		for j, in := range p.Inputs {
+			res := out.Results[j]
+			gc := genCase{Parser: p.Name, TM: p.TM, Input: in.Name, Text: in.Text, LA: p.Lookaheads, S: -1}
+			if res.Hang || res.Panic != "" || res.Extra == nil || res.Extra["records"] == nil {
+				c.Violate("layerB:sweep-failed:"+p.Name, fmt.Sprintf("the sweep did not complete: hang=%v panic=%q", res.Hang, res.Panic), gc)
+				continue
+			}
+			ref, err := buildRef(res)
+			if err != nil {
+				c.Violate("layerB:reference-run:"+p.Name, err.Error(), gc)
+				continue
+			}
+			for _, e := range res.Events {
+				if e.Type == "!error" {
+					handlerCalls++
+				}
+			}
+			if i >= 2 && ref.rec.ErrKind != "nil" {
+				c.Violate("layerB:reference-run-rejected:"+p.Name, "the uncancelled parse of a valid input fails: "+ref.rec.ErrKind, gc)
+				continue
+			}
+			if m := judgeGenRecords(c, st, p, in, ref, res.Extra["records"].([]any)); m > maxAll {
+				maxAll = m
+			}
+		}
+		c.Set("gen_"+p.Name, map[string]any{"inputs": len(p.Inputs), "handler_calls_in_reference_runs": handlerCalls, "max_tokens_after_cancel": maxAll})
+		if i < 2 && handlerCalls == 0 {
+			c.Capped(p.Name + ": no error-handler call in the reference runs (malformed inputs are not malformed)")
 		}
 	}
 }
@@ -1015,6 +1218,7 @@ func run(c *core.Ctx) {
 	c.Assume("event lists are compared through a 64-bit FNV-1a chain hash over (type, offset, endoffset)")
 	st := &stats{seen: map[string]bool{}}
 	layerB(c, st)
+	layerB2(c, st)
 	debugf("layer B done")
 	shippedPart(c, st)
 	c.States(st.states)
